@@ -135,18 +135,25 @@ def _summable(x):
 
 
 def fresh_seq(st, n, elem_shape, hint):
-    """A fresh sequence of length n: struct-of-arrays over the element shape."""
+    """A fresh sequence of length n: struct-of-arrays over the element shape.
+
+    Nested lists (`ListOf(ListOf(T))`, e.g. a grid of rows of cells): an element is itself an immutable
+    sequence *value* (an SSeq) whose length is `f#len(i)` and whose cells are `f[](i, j)` — the leaf functions
+    simply take one more index per nesting level.  Rows are held BY VALUE: the model has no aliasing between
+    rows (two slots never denote the same list object); see `RowRef` for how `grid[i].insert(...)` writes back."""
     from . import shapes as S
 
     base = st.fresh_name(hint)
 
-    def mk(shape, path):
+    def mk(shape, path, nidx=1):
+        dom = [z3.IntSort()] * nidx
+        zs = lambda idx: [zint(i) for i in idx]  # noqa: E731
         if isinstance(shape, S._Int):
-            f = z3.Function(f"{base}{path}", z3.IntSort(), z3.IntSort())
+            f = z3.Function(f"{base}{path}", *dom, z3.IntSort())
             lo, hi = shape.lo, shape.hi
 
-            def g(i, f=f, lo=lo, hi=hi):
-                e = f(zint(i))
+            def g(*idx, f=f, lo=lo, hi=hi):
+                e = f(*zs(idx))
                 s = cur()
                 if lo is not None:
                     s.assume(e >= lo)
@@ -156,31 +163,43 @@ def fresh_seq(st, n, elem_shape, hint):
 
             return g
         if isinstance(shape, S._Bool):
-            f = z3.Function(f"{base}{path}", z3.IntSort(), z3.BoolSort())
-            return lambda i, f=f: mk_bool(f(zint(i)))
+            f = z3.Function(f"{base}{path}", *dom, z3.BoolSort())
+            return lambda *idx, f=f: mk_bool(f(*zs(idx)))
         if isinstance(shape, S.Atom):
             if len(shape.domain) == 1:
-                return lambda i, d=shape.domain[0]: d
-            f = z3.Function(f"{base}{path}", z3.IntSort(), z3.IntSort())
+                return lambda *idx, d=shape.domain[0]: d
+            f = z3.Function(f"{base}{path}", *dom, z3.IntSort())
 
-            def g(i, f=f, dom=shape.domain):
-                e = f(zint(i))
+            def g(*idx, f=f, dom=shape.domain):
+                e = f(*zs(idx))
                 cur().assume(z3.Or(*[e == V.atom_code(d) for d in dom]))
                 return V.SAtom(e, dom)
 
             return g
         if isinstance(shape, S.Opaque):
-            f = z3.Function(f"{base}{path}", z3.IntSort(), S.opaque_sort(shape.kind))
-            return lambda i, f=f, shape=shape: V.SOpaque(shape.kind, f(zint(i)), dict(shape.meta))
+            f = z3.Function(f"{base}{path}", *dom, S.opaque_sort(shape.kind))
+            return lambda *idx, f=f, shape=shape: V.SOpaque(shape.kind, f(*zs(idx)), dict(shape.meta))
         if isinstance(shape, S.Opt):
-            f = z3.Function(f"{base}{path}?", z3.IntSort(), z3.BoolSort())
-            inner = mk(shape.inner, path + "v")
-            return lambda i, f=f, inner=inner: SOpt(f(zint(i)), inner(i))
+            f = z3.Function(f"{base}{path}?", *dom, z3.BoolSort())
+            inner = mk(shape.inner, path + "v", nidx)
+            return lambda *idx, f=f, inner=inner: SOpt(f(*zs(idx)), inner(*idx))
         if isinstance(shape, S.Tup):
-            parts = [mk(s, f"{path}.{k}") for k, s in enumerate(shape.items)]
-            return lambda i, parts=parts: tuple(p(i) for p in parts)
+            parts = [mk(s, f"{path}.{k}", nidx) for k, s in enumerate(shape.items)]
+            return lambda *idx, parts=parts: tuple(p(*idx) for p in parts)
         if isinstance(shape, S.Const):
-            return lambda i, v=shape.value: v
+            return lambda *idx, v=shape.value: v
+        if isinstance(shape, S.ListOf):
+            lf = z3.Function(f"{base}{path}#len", *dom, z3.IntSort())
+            inner = mk(shape.elem, path + "[]", nidx + 1)
+            # every row has a length within the declared bounds: one axiom with the trivial trigger lf(i)
+            qs = [z3.Int(f"{base}{path}#i{k}") for k in range(nidx)]
+            bounds = [lf(*qs) >= shape.min_len] + ([lf(*qs) <= shape.max_len] if shape.max_len is not None else [])
+            st.assume(z3.ForAll(qs, z3.And(*bounds)))
+
+            def g(*idx, lf=lf, inner=inner, shape=shape):
+                return SSeq(mk_int(lf(*zs(idx))), lambda j: inner(*idx, j), shape.elem, None, name=f"{base}{path}[]")
+
+            return g
         raise Unsupported(f"sequence element shape {shape!r}")
 
     getter = mk(elem_shape, "")
@@ -393,8 +412,12 @@ def seq_delete1(s, lo, hi):
 class LRef(Sym):
     """A mutable list object (reference semantics); content is a tuple (concrete length) or an SSeq."""
 
+    serial_counter = 0  # creation order of list objects (to tell a freshly built list from an existing one)
+
     def __init__(self, seq=()):
         self.seq = tuple(seq) if isinstance(seq, list) else seq
+        LRef.serial_counter += 1
+        self.serial = LRef.serial_counter
 
     def __repr__(self):
         return f"LRef({self.seq!r})"
@@ -406,6 +429,79 @@ class LRef(Sym):
 
     def __eq__(self, o):
         return self is o
+
+
+class _MovedSeq(SSeq):
+    """Content of a list object after it was stored (by value) into a nested list: any further use of the
+    old reference would need alias tracking, which the by-value row model does not have -> Unsupported."""
+
+    def __init__(self):
+        self.getter = None
+        self.shape = None
+        self.psum = None
+        self.name = "moved"
+
+    @property
+    def length(self):
+        raise Unsupported("use of a list after it was stored as a row of a nested list (row aliasing is not modelled)")
+
+    def get(self, i):
+        raise Unsupported("use of a list after it was stored as a row of a nested list (row aliasing is not modelled)")
+
+
+def is_nested(s):
+    """Is `s` the content of a list whose elements are rows held by value (shape ListOf(ListOf(..)))?"""
+    from . import shapes as S
+
+    return isinstance(s, SSeq) and isinstance(s.shape, S.ListOf)
+
+
+def row_value(v):
+    """The value stored when `v` becomes a row of a nested list: the content of a list object (which is
+    then marked as moved: the model keeps rows by value, see fresh_seq), or an immutable sequence as is."""
+    if isinstance(v, RowRef):
+        raise Unsupported("storing a row of a nested list into another slot (row aliasing is not modelled)")
+    if isinstance(v, LRef):
+        content = v.seq
+        v.seq = _MovedSeq()
+        return content
+    return v
+
+
+class RowRef(LRef):
+    """`grid[i]` for a nested list `grid`: a view of slot i of the parent list. Reading `.seq` gives the row
+    stored there, assigning `.seq` (which is all the list-mutation models do) stores a new row value in that
+    slot of the parent. Faithful to CPython as long as (a) no other slot holds the same list object (rows are
+    created fresh and moved, never shared — the by-value model cannot express sharing, and storing a RowRef
+    anywhere is rejected) and (b) the parent is not changed otherwise while the view is alive (checked: the
+    view goes stale -> Unsupported)."""
+
+    def __init__(self, parent: LRef, index):
+        self.parent = parent
+        self.index = index
+        self._stamp = parent.seq
+        self.serial = 0
+
+    def _check(self):
+        if self.parent.seq is not self._stamp:
+            raise Unsupported("row view used after the enclosing list changed")
+
+    @property
+    def seq(self):
+        self._check()
+        return seq_get(self._stamp, self.index)
+
+    @seq.setter
+    def seq(self, new):
+        self._check()
+        self.parent.seq = seq_update(self._stamp, self.index, tuple(new) if isinstance(new, list) else new)
+        self._stamp = self.parent.seq
+
+    def snapshot(self):
+        return LRef(self.seq)
+
+    def __repr__(self):
+        return f"RowRef({self.parent!r}[{self.index!r}])"
 
 
 class DRef(Sym):
